@@ -36,9 +36,27 @@ def item_of_store_fee(model, view, b, t, crate):
     return None, None
 
 
-def pool_identity(v, os_):
-    """Identity of a pool operand: the defining sites of the Asset it is taken from, field projection dropped."""
-    return {(o.kind, o.a, o.b) for o in os_}
+CLONE = r"as std::clone::Clone>::clone$"
+
+
+def pool_identity_of(v, operand, at, proj=(), depth=0):
+    """Identity of a pool operand = the `pools[i].clone()` assignment sites it comes from (clone calls are kept
+    opaque so that the offer and the ask pool, both taken from the same vector, stay distinguishable)."""
+    out = set()
+    with v.opaque(CLONE):
+        os_ = v.origins_of_operand(operand, proj=proj, at=at)
+    for o in os_:
+        c = call_of(v, o)
+        if c and re.search(CLONE, mname(c[1])) and depth < 4:
+            with v.opaque(CLONE):
+                inner = v.origins_of_operand(c[1]["args"][0], proj=o.proj, at=v.at_term(c[0]))
+            if any(call_of(v, x) and re.search(CLONE, mname(call_of(v, x)[1])) for x in inner):
+                out |= pool_identity_of(v, c[1]["args"][0], v.at_term(c[0]), o.proj, depth + 1)
+            else:
+                out.add(("clone-site", o.b))
+        else:
+            out.add((o.kind, o.a, o.b))
+    return out
 
 
 def check_swap(ctx, model, crate):
@@ -52,8 +70,8 @@ def check_swap(ctx, model, crate):
         return
     cb, ct = cs[0]
     # which pool is the ask pool: second argument of compute_swap
-    ask_ids = pool_identity(v, arg_origins(v, cb, ct, 1))
-    offer_ids = pool_identity(v, arg_origins(v, cb, ct, 0))
+    ask_ids = pool_identity_of(v, ct["args"][1], v.at_term(cb))
+    offer_ids = pool_identity_of(v, ct["args"][0], v.at_term(cb))
     oks = ok_value_blocks(v)
     seen = {}
     for b, t in v.calls_to(r"^%s::state::store_fee$" % crate):
@@ -68,7 +86,7 @@ def check_swap(ctx, model, crate):
         for o in arg_origins(v, b, t, 2):
             c = call_of(v, o)
             if c and mname(c[1]).endswith("Asset::get_id"):
-                idr |= pool_identity(v, v.origins_of_operand(c[1]["args"][0], proj=("info",), at=v.at_term(c[0])))
+                idr |= pool_identity_of(v, c[1]["args"][0], v.at_term(c[0]), ("info",))
         seen.setdefault(short, []).append((b, amt, idr))
     for short, field in [("COLLECTED_PROTOCOL_FEES", "protocol_fee_amount"), ("ALL_TIME_COLLECTED_PROTOCOL_FEES", "protocol_fee_amount"),
                          ("ALL_TIME_BURNED_FEES", "burn_fee_amount")]:
